@@ -179,6 +179,52 @@ def rule_r2(chk, prog):
                   msg or f'{len(sts)} abstract states, all (fresh, no '
                   'reduction, generated from node 0, flag clear)',
                   loc=m.loc(b), nontrivial=True)
+    # the sweep is produced from the whole pass: the first argument of the
+    # Producer is the mutator list of the pass as get_pass() delivered it,
+    # on every definition that reaches the construction
+    prods = [c for c in ast.walk(wl) if isinstance(c, ast.Call) and (
+        call_name(c) or '').split('.')[-1] == 'Producer' and c.args]
+    chk.floor('C02.R2', 'Producer constructions in the sweep loop',
+              len(prods), 1)
+    passvars = set()
+    for st in ast.walk(f):
+        if isinstance(st, ast.Assign) and isinstance(
+                st.targets[0], ast.Tuple) and isinstance(
+                    st.value, ast.Call) and (call_name(
+                        st.value) or '').split('.')[-1] == 'get_pass' and \
+                isinstance(st.targets[0].elts[0], ast.Name):
+            passvars.add(st.targets[0].elts[0].id)
+        if isinstance(st, ast.For) and isinstance(
+                st.target, ast.Tuple) and isinstance(
+                    st.target.elts[0], ast.Name) and any(
+                        isinstance(x, ast.Call) and (call_name(x) or ''
+                                                     ).split('.')[-1] in (
+                                                         'get_pass',
+                                                         'get_passes')
+                        for x in ast.walk(st.iter)):
+            passvars.add(st.target.elts[0].id)
+    from ..cfg import reaching_defs
+    RDp = reaching_defs(cfg, params_of(f))
+    for c in prods:
+        a0 = c.args[0]
+        okp = isinstance(a0, ast.Name) and a0.id in passvars
+        srcs = []
+        if isinstance(a0, ast.Name) and not okp:
+            n_ = expr_owner_node(cfg, c)
+            ds = (RDp.get(n_) or {}).get(a0.id, ())
+            srcs = sorted({unparse(d.ast.value) for d in ds if d != 'param'
+                           and isinstance(getattr(d, 'ast', None),
+                                          ast.Assign)})
+            okp = bool(srcs) and all(v in passvars for v in srcs)
+        chk.check('C02.R2', where, f'Producer({unparse(a0)}, ..) gets the '
+                  'whole pass', okp,
+                  f'the sweep is generated from "{unparse(a0)}"'
+                  + (f' (= {srcs})' if srcs else '')
+                  + ', not from the mutator list of the pass as get_pass() '
+                  'delivers it: the sweep that ends the pass can be one '
+                  'over a subset of the enabled mutators, so the result is '
+                  'not a fixed point of the others', loc=m.loc(c),
+                  nontrivial=True)
     # the break is the only normal exit of the loop
     others = [x for x in ast.walk(wl) if isinstance(x, ast.Return)]
     chk.check('C02.R2', where, 'break is the only exit', not others,
@@ -687,6 +733,12 @@ def run(tier):
               'no function of the tree core that enumerates or applies candidates recurses over the nesting depth (directly, through helpers, generators, tuple comparison, deepcopy or the generic pickler)',
               [('nodes', 'substitute'), ('nodes', 'dfs'), ('nodes', 'bfs'), ('nodes', 'reduplicate'), ('nodes', 'count_nodes'), ('nodes', 'Node.__eq__'), ('nodes', 'Node.__getstate__'), ('nodes', 'Node.__setstate__')],
               'a check that raises in the worker is reported as "rejected": candidates in deep terms are never really tested, and the sweep that ends the pass declares a fixed point')
+    from .. import mutstate
+    chk.guard(mutstate.report, chk, prog, 'C02.R14',
+              'mutators keep no state from one call to the next: their '
+              'protocol methods store nothing on the object, the class or '
+              'module-level containers except option values and constants',
+              'proposals are generated from what an earlier input looked like: candidates that exist for the current input are never offered, and the final sweep declares a fixed point')
     extra = None
     if tier == 'thorough':
         from .. import selftest
